@@ -737,12 +737,43 @@ class Gen:
             groups[i % k].append(str(u))
         return [{"k": "composite", "name": f"CE{i}", "args": g} for i, g in enumerate(groups) if g]
 
+    def lifecycle_prefix(self, v):
+        """scripted prefix: one envelope goes through its whole storage life cycle - combined, absorbed into a
+        composite product space together with another subsystem, released again by a non-destructive measurement -
+        and the following random steps keep addressing it (focus).  Flags that should have been reset on the way
+        (stale envelope arrays, level tags, indices) show up in what comes next."""
+        w = v["w"]
+        if not w.envs or len(w.subs) < 3:
+            return []
+        e = str(self.ch(w.envs))
+        others = [n for n in w.subs if not n.startswith(e + ".")]
+        if not others:
+            return []
+        o = str(self.ch(others))
+        units = list(w.envs) + [n for n in w.subs if w.kind(n) == "X"]
+        if w.kind(o) in ("F", "P") and w.env_of(o) is None:
+            return []
+        pre = [{"k": "composite", "name": "CE0", "args": [str(u) for u in units]},
+               {"k": "combine", "via": "env", "env": e, "targets": []}]
+        if self.p(0.5):
+            pre.append({"k": "expand", "via": "env", "env": e, "targets": []})
+        member = e + (".f" if self.p(0.5) else ".p")
+        pre.append({"k": "combine", "via": "ce", "ce": "CE0", "targets": [member, o]})
+        pre.append({"k": "measure", "via": str(self.ch(["ce", "state"])), "ce": "CE0", "targets": [member], "destr": False})
+        if pre[-1]["via"] == "state":
+            pre[-1].pop("ce")
+        self.focus = {e + ".f", e + ".p"}
+        self.sticky_focus = 4
+        return pre
+
     def next_step(self, runner):
         v = self.view(runner)
         if v["joint"] > self.maxdim:
             return None
         if not runner.records and self.opts.get("multi_ce") and self.p(self.opts["multi_ce"]):
             self.prefix = self.multi_ce_prefix(v)
+        elif not runner.records and self.opts.get("lifecycle") and self.p(self.opts["lifecycle"]):
+            self.prefix = self.lifecycle_prefix(v)
         if getattr(self, "prefix", None):
             return self.prefix.pop(0)
         if not v["w"].ces and self.p(self.opts.get("p_early_composite", 0.6)) and len(runner.records) < 2:
@@ -768,6 +799,9 @@ class Gen:
             if st:
                 if st["k"] == "apply" and self.opts.get("op_reuse", 0.25) and "op_id" not in st:
                     self._maybe_reuse(st)
+                if getattr(self, "sticky_focus", 0) > 0:
+                    self.sticky_focus -= 1
+                    return st
                 self.focus = set(st.get("targets", []))
                 for t in list(self.focus):
                     pt = v["w"].partner(t)
